@@ -63,7 +63,10 @@ def main():
             open(os.path.join(work, "corpus", "seed%02d" % i), "wb").write(b)
     stat = os.path.join(work, "stat.json")
     env = dict(ENV, DFUZZ_MODE=a.mode, DFUZZ_OUT=os.path.join(work, "viol"), DFUZZ_STAT=stat)
-    cmd = ["setarch", "x86_64", "-R", a.binary, "-runs=%d" % a.cases, "-seed=%d" % (a.seed or 1), "-max_len=%d" % a.size, "-len_control=20", "-timeout=60", "-rss_limit_mb=6000",
+    import time
+    left = float(os.environ.get("VERIF_DEADLINE") or 0) - time.time()
+    extra = ["-max_total_time=%d" % max(10, int(left))] if os.environ.get("VERIF_DEADLINE") else []
+    cmd = ["setarch", "x86_64", "-R", a.binary] + extra + ["-runs=%d" % a.cases, "-seed=%d" % (a.seed or 1), "-max_len=%d" % a.size, "-len_control=20", "-timeout=60", "-rss_limit_mb=6000",
            "-dict=" + os.path.join(VERIF, "fuzz", "jet.dict"), "-artifact_prefix=" + os.path.join(work, "art") + "/", "-print_final_stats=1", os.path.join(work, "corpus")]
     r = subprocess.run(cmd, env=env, capture_output=True, text=True, errors="replace")
     log = r.stderr
